@@ -105,6 +105,16 @@ def expr_sign(e: ast.AST, defs, depth=0) -> int:
         ds = defs.get(e.id, [])
         if len(ds) == 1:
             return expr_sign(ds[0], defs, depth + 1)
+        # `y = f(x); y = -y`: one base definition followed by re-bindings in terms of the name itself
+        selfref = [d for d in ds if any(isinstance(n, ast.Name) and n.id == e.id for n in ast.walk(d))]
+        base = [d for d in ds if d not in selfref]
+        if len(base) == 1 and selfref:
+            inner = dict(defs)
+            inner[e.id] = []
+            sgn = expr_sign(base[0], defs, depth + 1)
+            for d in selfref:
+                sgn *= expr_sign(d, inner, depth + 1)
+            return sgn
         return 1
     if isinstance(e, ast.BinOp) and isinstance(e.op, (ast.Mult, ast.Div)):
         s = 1
